@@ -292,20 +292,22 @@ func loadAndCheck(t rk.Failer, slot string, cfg config, texts []string, offs [][
 				rk.Fail(t, slot, rp, "error of %s (callee %s fails): call sites %s, want %s [order %v]", nm, name(p.Callee, n), fmtChain(chain[len(own):]), fmtSites(p.Tail), ord)
 			}
 		case "cycle":
-			// tolerant first entry: the rejected script at one of its use calls, followed by the full tail; or the tail alone
+			// the head entry of a cycle error is not pinned by the property beyond "root cause": accepted are the
+			// call sites alone, or one of the call sites on the offending chain repeated in front of them (a use
+			// call of the rejected script that does not lead into the cycle is not the root cause)
 			okForm := false
 			if tailEq(chain, p.Tail) {
 				okForm = true
 			}
-			if len(chain) == len(p.Tail)+1 && tailEq(chain[1:], p.Tail) && chain[0].File == nm {
-				for _, o := range offs[i] {
-					if o == chain[0].Pos {
+			if len(chain) == len(p.Tail)+1 && tailEq(chain[1:], p.Tail) {
+				for _, s := range p.Tail {
+					if s.File == chain[0].File && s.Pos == chain[0].Pos {
 						okForm = true
 					}
 				}
 			}
 			if !okForm {
-				rk.Fail(t, slot, rp, "error of %s (cycle): chain %s, want [%s at one of its use calls] followed by the call sites %s [order %v]", nm, fmtChain(chain), nm, fmtSites(p.Tail), ord)
+				rk.Fail(t, slot, rp, "error of %s (cycle): chain %s, want [one of the call sites of the offending chain] followed by the call sites %s [order %v] (script %s)", nm, fmtChain(chain), fmtSites(p.Tail), ord, nm)
 			}
 			if !strings.Contains(impl.PlErr(e).Err, "circular") {
 				rk.Fail(t, slot, rp, "error of %s should report a circular dependency, got %q", nm, impl.PlErr(e).Err)
